@@ -59,6 +59,7 @@ type result struct {
 	Histogram   map[string]int         `json:"histogram"`
 	Samples     []map[string]string    `json:"samples"`
 	Violations  []Violation            `json:"violations"`
+	ViolationCount int                  `json:"violation_count"`
 	Extra       map[string]interface{} `json:"extra,omitempty"`
 	WallS       float64                `json:"wall_s"`
 }
@@ -132,6 +133,7 @@ func run(p *Prop, tier string, seed int64, outDir, corpusDir string) {
 	opsW := bufio.NewWriterSize(opsF, 1<<20)
 	implW := bufio.NewWriterSize(implF, 1<<20)
 	res := &result{Property: p.ID, Tier: tier, Seed: seed, Rule: p.Rule, Histogram: map[string]int{}}
+	var perSig map[string]int
 	seen := map[string]struct{}{}
 	sampleEvery := 1
 	lastOp, _ := os.Create(filepath.Join(outDir, "last-op.txt"))
@@ -176,9 +178,15 @@ func run(p *Prop, tier string, seed int64, outDir, corpusDir string) {
 		if v != nil {
 			v.Op = op
 			v.Impl = o
-			if len(res.Violations) < 200 {
+			// keep at most 200, and at most 12 per signature so that distinct failures all show up
+			if perSig == nil {
+				perSig = map[string]int{}
+			}
+			if len(res.Violations) < 200 && perSig[v.Signature] < 12 {
+				perSig[v.Signature]++
 				res.Violations = append(res.Violations, *v)
 			}
+			res.ViolationCount++
 		}
 		if res.Evaluations%sampleEvery == 0 && len(res.Samples) < 12 {
 			so, si := op, o
